@@ -22,6 +22,7 @@ import (
 	"math/big"
 	"net/http"
 	"regexp/syntax"
+	"runtime/debug"
 	ttemplate "text/template"
 
 	"github.com/tencent/goom/internal/bytecode/memory"
@@ -211,7 +212,10 @@ func c14RunLayout(ci interface{}, s *vkit.Stats) error {
 			data[i] = byte(0x10 + (i+int(c.Seed))%200)
 		}
 		snap := append([]byte(nil), mem...)
-		if r := c03Refusal(func() { perr = memory.WriteTo(region+uintptr(wat), data) }); r != nil || perr != nil {
+		if r := c03Refusal(func() {
+			defer debug.SetPanicOnFault(debug.SetPanicOnFault(true)) // a write into a page left read-only becomes a reported failure
+			perr = memory.WriteTo(region+uintptr(wat), data)
+		}); r != nil || perr != nil {
 			return fmt.Errorf("%s: WriteTo(+%d, %d bytes) failed: %v %v", desc, wat, c.WriteN, r, perr)
 		}
 		for i := 0; i < size; i++ {
@@ -228,6 +232,9 @@ func c14RunLayout(ci interface{}, s *vkit.Stats) error {
 		}
 		if (wat/4096) != ((wat + c.WriteN - 1) / 4096) {
 			s.Class("write-crossing-a-page-boundary")
+		}
+		if c.WriteN%4096 == 0 && wat%4096 != 0 {
+			s.Class("write-of-whole-pages-at-an-unaligned-address")
 		}
 	}
 	if off%4096 > 4096-13 || (c.Body+c.Pad >= 10 && c.Body+c.Pad <= 16) || (c.WriteN > 0 && (c.WriteAt%(size-c.WriteN))/4096 != ((c.WriteAt%(size-c.WriteN))+c.WriteN-1)/4096) {
@@ -246,7 +253,10 @@ func TestVerifC14Synthetic(t *testing.T) {
 			c.Body = rapid.OneOf(rapid.IntRange(1, 20), rapid.IntRange(1, 200), rapid.IntRange(10, 16)).Draw(rt, "body")
 			c.Pad = rapid.OneOf(rapid.IntRange(0, 3), rapid.IntRange(0, 40), rapid.IntRange(1, 15)).Draw(rt, "pad")
 			if rapid.Bool().Draw(rt, "rawwrite") {
-				c.WriteN = rapid.OneOf(rapid.IntRange(1, 32), rapid.IntRange(1, 9000)).Draw(rt, "wlen")
+				c.WriteN = rapid.OneOf(rapid.IntRange(1, 32), rapid.IntRange(1, 9000),
+					rapid.Custom(func(t *rapid.T) int { // whole pages, give or take a few bytes
+						return 4096*rapid.IntRange(1, 3).Draw(t, "pages") + rapid.IntRange(-3, 3).Draw(t, "delta")
+					})).Draw(rt, "wlen")
 				if rapid.Bool().Draw(rt, "near-boundary") {
 					c.WriteAt = 4096*rapid.IntRange(1, 3).Draw(rt, "page") - rapid.IntRange(0, 16).Draw(rt, "back")
 				} else {
